@@ -343,6 +343,39 @@ def pair_scenarios(pool, rnd, quick, optsets, sid0):
     return out
 
 
+# Match, Minify, Match on the same media type ("Match results stable before/after Minify calls"), first of all on
+# the regexp-registered types: (media type, document, match shape, minify shape)
+MMM = [('text/xml', XML[0], 'matchP', 'xml'), ('application/rss+xml', XML[1], 'matchP', 'xml'),
+       ('x-gatere/doc+xml', XML[0], 'matchP', 'xml'), ('application/ld+json', JSON[0], 'matchJ', 'json'),
+       ('x-cmdre/feed+json', JSON[0], 'matchJ', 'json'), ('text/x-ecmascript', JS[0], 'matchJs', 'js'),
+       ('application/javascript', JS[1], 'matchJs', 'js'), ('a/x-upper', PAY[0], 'matchU', 'upper'),
+       ('x-cmdre/q', PAY[0], 'matchCmd', 'cmd'), ('text/html', HTML0[0], 'matchL', 'html0'),
+       ('image/svg+xml', SVG1, 'matchS', 'svg2'), ('text/css; inline=1', CSSI[0], 'matchC', 'cssi'),
+       ('text/plain', PAY[0], 'matchN', 'none')]
+
+
+def mmm_scenarios(pool, rnd, quick, optsets, sid0):
+    """every MMM row: on one goroutine (Match, Minify, Match), on two goroutines in sequence, and with the Minify
+    running on a second goroutine between/alongside the two Match calls"""
+    out = []
+    S = lambda g, k: dict(op='start', g=g, k=k)
+    D = lambda g, k: dict(op='done', g=g, k=k)
+    for mt, b, msh, sh in MMM:
+        d = pool.add(b)
+        mc = dict(e='Match', mt=mt, doc=d, gate=0, sh=msh)
+        for v in (['same', 'conc'] if quick else ['same', 'two', 'conc', 'same']):
+            cc = dict(e=rnd.choice(ENTRIES), mt=mt, doc=d, gate=0, sh=sh)
+            if v == 'same':
+                progs, script = [[dict(mc), cc, dict(mc)]], [S(1, 1), D(1, 1), S(1, 2), D(1, 2), S(1, 3), D(1, 3)]
+            elif v == 'two':
+                progs, script = [[dict(mc), dict(mc)], [cc]], [S(1, 1), D(1, 1), S(2, 1), D(2, 1), S(1, 2), D(1, 2)]
+            else:
+                progs, script = [[dict(mc), dict(mc)], [cc, dict(cc)]], [S(1, 1), S(2, 1), D(1, 1), D(2, 1), S(2, 2), S(1, 2), D(2, 2), D(1, 2)]
+            out.append(dict(kind='sched', id='%s%d' % (sid0, len(out)), optset=rnd.choice(optsets), gomaxprocs=rnd.choice([1, 4, 16]),
+                            progs=progs, script=script, pair=[msh, sh, 'mmm-' + v]))
+    return out
+
+
 def call_pool(pool, rnd, optsets, quick):
     """calls used by the sequential pass and the stress runs"""
     calls = []
@@ -438,11 +471,19 @@ def run_driver(ctx, exe, pool, scens, tag, deadline_ms=30000, procs_env=None, ti
     # the process died.  A Go runtime "fatal error" (concurrent map access) or a panic in a goroutine the driver
     # cannot guard (Reader/Writer workers) inside the code under test is an observation about the scenario that
     # was running (trace lines are written unbuffered); anything else is an infrastructure problem.
-    err = (r.stderr or '')[-6000:]
+    full = r.stderr or ''
     begun = [l['sc'] for l in lines if l['ev'] == 'begin']
-    died_in_cut = 'github.com/tdewolff/' in err and ('fatal error:' in err or 'panic:' in err)
-    if not died_in_cut or len(begun) != ends + 1 or _depth > 40:
-        raise vlib.Infra('c13 driver failed (%d) after %d of %d scenarios: %s' % (r.returncode, ends, len(scens), err[-2500:]))
+    # "fatal error: concurrent map writes" is the FIRST line of a goroutine dump that can be megabytes long
+    m = re.search(r'^(fatal error: .*|panic: .*)$', full, re.M)
+    head = full[m.start():m.start() + 5000] if m else ''
+    cut_frame = re.search(r'github\.com/tdewolff/[^\s(]*', full)
+    died_in_cut = bool(m) and bool(cut_frame)
+    err = head + ('\n...\nfirst frame of the code under test: ' + cut_frame.group(0) if cut_frame and cut_frame.group(0) not in head else '')
+    # the scenario that was running - or, when the process died between two scenarios (a goroutine left over from
+    # the last one), the last one that ran
+    if not died_in_cut or not begun or len(begun) not in (ends, ends + 1) or _depth > 40:
+        raise vlib.Infra('c13 driver failed (%d) after %d of %d scenarios: %s ... %s' % (
+            r.returncode, ends, len(scens), full[:1500], full[-1500:]))
     sid = begun[-1]
     lines.append(dict(ev='crash', sc=sid, g=0, k=0, sh='', key='', h='', err='', races=0, o1='', o2='', note=err))
     rest = [sc for sc in scens if sc['id'] not in set(begun)]
@@ -761,6 +802,8 @@ def _run(ctx, exe, quick, rnd, mc_info):
         seen.add(key)
         scheds.append(scenario_from_history(pool, rnd, h, 's%d' % len(scheds), rnd.choice(optsets), rnd.choice([1, 4, 16])))
     pairs = pair_scenarios(pool, rnd, quick, optsets, 'p')
+    mmm = mmm_scenarios(pool, rnd, quick, optsets, 'm')
+    pairs += mmm
     calls = call_pool(pool, rnd, optsets, quick)
     seqs = []
     for o in optsets:
@@ -917,7 +960,8 @@ def _run(ctx, exe, quick, rnd, mc_info):
         distinct_nontrivial=len(nontrivial),
         rule='histories = (a) TLC -simulate walks of spec/Conc.tla (3 goroutines x 2 calls, 4 x 1; eager and lazy gate release) '
              'replayed as gate schedules, (b) every ordered pair of %d media-type shapes run sequentially / on two goroutines / '
-             'concurrently / beside a reader parked two read-holds deep, (c) stress runs goroutines {2,8,64} x GOMAXPROCS {1,4,16} '
+             'concurrently / beside a parked reader, plus Match-Minify-Match on every regexp-registered and literal type '
+             '(one goroutine, two goroutines, concurrently), (c) stress runs goroutines {2,8,64} x GOMAXPROCS {1,4,16} '
              'with parked readers and Match before/after, (d) one sequential pass per option set on one registry, (e) all reference '
              'calls repeated in a second process; a call is (entry point, media type, document, option set). Non-trivial = distinct '
              'scripted history in which a call returned while another goroutine was parked inside a gate or two calls were in flight '
@@ -927,7 +971,8 @@ def _run(ctx, exe, quick, rnd, mc_info):
              'html.Minifier.KeepConditionalComments=true (deprecated option). AddCmd with $in/$out placeholders is an ordinary '
              'member of the registry since fix fd040d4; its former witnesses run as regression scenarios.' % len(PAIR_SHAPES),
         samples=samples,
-        scripted_histories=len(scheds), pair_histories=len(pairs), stress_runs=len(stress),
+        scripted_histories=len(scheds), pair_histories=len(pairs) - len(mmm), match_minify_match_histories=len(mmm),
+        stress_runs=len(stress),
         reference_calls=sum(len(b['calls']) for b in bases), repo_test_documents=nrepo,
         shape_checks=sum(len(sc['calls']) for sc in shapes),
         calls_parked_inside_real_minifier=sum(1 for sc in scheds + pairs + stress for c in calls_of(sc) if c.get('hold')),
